@@ -335,6 +335,8 @@ def _build_rules(rules, app, log):
 
 
 def _canon_exc(e):
+    if type(e).__name__ == "Hang":
+        raise e                      # the runner's watchdog, not an outcome of the implementation
     for t in (ValueError, AssertionError, TypeError, KeyError):
         if type(e) is t:
             return t.__name__
@@ -457,7 +459,7 @@ def _arg_bytes(a):
     return str(a).encode("utf-8")
 
 
-def run_impl(case):
+def _run_impl(case):
     import warnings, logging
     warnings.simplefilter("ignore")
     logging.getLogger("tornado.application").disabled = True
@@ -598,6 +600,20 @@ def _run_prim(case):
     except Exception as e:
         return {"v": _canon_exc(e)}
     raise AssertionError(op)
+
+
+def run_impl(case):
+    """the runner's wall-clock watchdog also fires when the whole machine stalls (seen under load 40+: three trivial cases
+    'hung' at the same moment).  A case that was interrupted without having used CPU time is run again once; a case that
+    burnt CPU (a genuinely looping implementation) is reported as the Hang it is."""
+    import time
+    c0 = time.process_time()
+    try:
+        return _run_impl(case)
+    except BaseException as e:
+        if type(e).__name__ == "Hang" and time.process_time() - c0 < 10:
+            return _run_impl(case)
+        raise
 
 
 # ------------------------------------------------------------------------------------------- model / spec
